@@ -526,6 +526,13 @@ def run_item(case, root, tier, seed, opts, out, donate=None):
     out["items"] += 1
 
 
+def _cases(mod, tier):
+    """The case list of a tier (see THOROUGH_CASES in run_property)."""
+    if tier == "thorough" and getattr(mod, "THOROUGH_CASES", "deep") == "quick":
+        return mod.cases("quick")
+    return mod.cases(tier)
+
+
 def worker_main(wid, nworkers, modname, tier, seed, opts, work_q, result_q, pending):
     """Worker process: take (case index, prefix) items until none are pending
     anywhere; donate parts of the local stack when the queue runs dry."""
@@ -534,7 +541,7 @@ def worker_main(wid, nworkers, modname, tier, seed, opts, work_q, result_q, pend
     coll = FnCollector()
     try:
         mod = importlib.import_module(modname)
-        cases = mod.cases(tier)
+        cases = _cases(mod, tier)
         coll.start()
 
         def donate(stack):
@@ -609,12 +616,11 @@ def run_property(prop, modname, tier, seed, meta, jobs=None, budget_s=None):
     """Run all cases of a property.  Returns the exit code."""
     t0 = time.time()
     mod = importlib.import_module(modname)
-    cases = mod.cases(tier)
+    cases = _cases(mod, tier)
     if tier == "thorough" and getattr(mod, "THOROUGH_CASES", "deep") == "quick":
         # the deeper case list of this property could not be re-validated end to end in the time available
         # after the last round of harness changes: the thorough tier then runs the quick tier's cases with
         # the second solver on every obligation (stated in the evidence)
-        cases = mod.cases("quick")
         meta = dict(meta, bounds=list(meta.get("bounds", [])) +
                     ["thorough tier = the quick tier's cases with every obligation re-checked by the second "
                      "solver (deeper case list not re-validated after the last harness changes)"])
@@ -867,7 +873,7 @@ def confirm(modname, path):
     """Child side of _fresh_confirm: plain concrete run, prints the violations as JSON."""
     rec = json.load(open(path))
     mod = importlib.import_module(modname)
-    cs = [c for c in mod.cases(rec["tier"]) if c.name == rec["case"]]
+    cs = [c for c in _cases(mod, rec["tier"]) if c.name == rec["case"]]
     res = []
     if cs:
         try:
